@@ -226,7 +226,7 @@ def simulate(ctx, cfg, num, depth):
     return out
 
 
-def replay(ctx, cases, tag):
+def _replay_cases(ctx, cases, tag):
     inp = os.path.join(ctx.work, "cases-%s.ndjson" % tag)
     res = os.path.join(ctx.work, "res-%s.ndjson" % tag)
     core.write_ndjson(inp, cases)
@@ -259,7 +259,7 @@ def act_name(a):
         return "Resolve-%s-%s" % ((a.get("m") or {}).get("t"), a.get("o"))
     if n in ("BadId", "Stray"):
         return "%s-%s" % (n, a.get("to"))
-    if n in ("XSendVoteproof", "YChallenge", "XBallot"):
+    if n in ("XSendVoteproof", "YChallenge", "XBallot") and a.get("r"):
         return "%s-%s" % (n, a.get("r"))
     return n
 
@@ -332,7 +332,7 @@ def candidates(ctx):
         case = behaviour_case("cand-%s" % inv, params, sts)
         out.append((inv, case, r))
     if out:
-        rows = replay(ctx, [c for _, c, _ in out], "cand")
+        rows = _replay_cases(ctx, [c for _, c, _ in out], "cand")
         for (inv, case, r), row in zip(out, rows):
             ent = {"invariant": inv, "steps": len(case["steps"]), "reproduced_on_real_brokers": bool(row["ok"]),
                    "real_safety_facts": row.get("safety") or [],
@@ -499,7 +499,7 @@ def run(ctx):
                 raise core.MachineryError("%s must use the retry limits of the code (33, 3)" % cfg)
             behs = simulate(ctx, cfg, num, depth)
             cases = [behaviour_case("%s#%d" % (cfg, i), params, b) for i, b in enumerate(behs)]
-            rows = replay(ctx, cases, cfg.split(".")[0])
+            rows = _replay_cases(ctx, cases, cfg.split(".")[0])
             judge(ctx, cases, rows, cfg)
     # 3. binding B
     if "trace" in parts:
@@ -509,3 +509,16 @@ def run(ctx):
         stress(ctx, lock_model(ctx))
     if "ask" in parts:
         ask(ctx)
+
+
+def replay(ctx, path):
+    """check.py HANDOVER --replay <file of replays/HANDOVER/>: performs the saved behaviour again
+    on the real brokers of the current tree (conformance / safety cases only)."""
+    saved = json.load(open(path))
+    c = (saved.get("case") or {}).get("case")
+    if not c or "steps" not in c:
+        print("replay file %s holds no behaviour (key %s): re-run the tier with VERIF_SEED=%s" % (path, saved.get("key"), saved.get("seed")))
+        return
+    rows = _replay_cases(ctx, [c], "again")
+    judge(ctx, [c], rows, "replay of " + os.path.basename(path))
+    print(json.dumps({k: rows[0].get(k) for k in ("ok", "at", "fields", "note", "safety")}))
